@@ -212,7 +212,7 @@ class E_var2h:
         ns = [0, 1, 2, 3, 4, 5] + big_lengths(seed, tier)[:1]
         return ncls_space(seed, tier, {"P": 3600, "G": 5 * 86400, "rain": False, "stamps": "20min", "unit": "ns"},
                           {"P": [1800, 900, 0, -3600], "G": [3600, 3599, 2 ** 31 - 1], "rain": [True],
-                           "stamps": ["same", "1s", "3h", "decr", "within1h", "on-hour-1h", "1000d"],
+                           "stamps": ["same", "1s", "3h", "decr", "within1h", "on-hour-1h", "1000d", "71y-daily"],
                            "unit": ["s", "us"]}, ns=ns)
 
     @staticmethod
@@ -236,6 +236,10 @@ class E_var2h:
             secs = [t0 + (3599 * i) // max(n - 1, 1) for i in range(n)]
         elif st == "on-hour-1h":
             secs = [t0 + (3600 * i) // max(n - 1, 1) for i in range(n)]
+        elif st == "71y-daily":
+            # period index * period length crosses 2**31 (the array length n is ignored: 25933 daily stamps)
+            n = 25933
+            secs = [t0 + 86400 * i for i in range(n)]
         else:
             secs = [t0 + 86400000 * i for i in range(n)]
         idx = pd.DatetimeIndex(np.array(secs, dtype=np.int64).astype("datetime64[s]").astype("datetime64[%s]" % p["unit"]))
